@@ -82,13 +82,85 @@ def interval_frames(tc, n: int, pattern: str, salt: int) -> List[bytes]:
     return frames
 
 
+GHOST = 4242
+
+
+def execute_second(case) -> Dict[str, Any]:
+    """a manager that runs after another manager of the same process (restarted in place, a test bench that starts one per case):
+    its reports speak about its own traffic only. The first manager is stopped with counts it has not reported yet."""
+    _tag, tc, how = case
+    probs: List[Dict[str, Any]] = []
+    reports = {"timing": 0, "traffic": 0}
+    mmx.fresh_gc()
+    w0 = mmx.World(timecode=tc)
+    rounds = 0
+    try:
+        P0 = w0.client("P", 1).connect()
+        w0.settle()
+        P0.send(P.mkframe(P.MT_CONNECT, P.p_connect(), timecode=tc, src_mod_id=21))
+        w0.settle()
+        if how == "after-report":
+            w0.tick(1.05)
+            w0.step()
+        P0.send(b"".join(P.mkframe(GHOST + (k % 2), b"", timecode=tc, src_mod_id=21) for k in range(5)))
+        w0.settle()
+    finally:
+        w0.stop()
+        rounds += w0.rounds
+    w = mmx.World(timecode=tc)
+    try:
+        L = w.client("L", 1).connect()
+        Pp = w.client("P", 2).connect()
+        w.settle()
+        L.send(P.mkframe(P.MT_CONNECT_V2, P.p_connect_v2(1, 0, 0, 60, 1, b"log"), timecode=tc, src_mod_id=60)
+               + P.mkframe(P.MT_SUBSCRIBE, P.p_sub(P.ALL_MESSAGE_TYPES), timecode=tc, src_mod_id=60))
+        Pp.send(P.mkframe(P.MT_CONNECT, P.p_connect(), timecode=tc, src_mod_id=21))
+        w.settle()
+        sent = 0
+        for step in range(3):
+            if step == 1:
+                Pp.send(P.mkframe(GHOST, b"", timecode=tc, src_mod_id=21))
+                sent = 1
+                w.settle()
+            w.tick(1.05)
+            w.step()
+            w.settle()
+            seen = Counter()
+            for f in L.drain():
+                k = P.normalize(f)
+                if k[0] == "timing":
+                    counts, _pids = P.decode_timing(f.payload)
+                    reports["timing"] += 1
+                    for t in (GHOST, GHOST + 1):
+                        want = sent if (t == GHOST and step == 1) else 0
+                        if counts.get(t, 0) != want:
+                            probs.append({"kind": "timing-counts-of-another-manager", "type": t, "got": counts.get(t, 0), "want": want, "report": step})
+                elif k[0] == "traffic":
+                    d = P.decode_traffic(f.payload)
+                    reports["traffic"] += 1
+                    for t, c in zip(d["types"], d["counts"]):
+                        if t == -1:
+                            break
+                        if t in (GHOST, GHOST + 1) and c and not (t == GHOST and step == 1 and c == sent):
+                            probs.append({"kind": "traffic-counts-of-another-manager", "type": t, "got": c, "report": step})
+            if not w.alive:
+                probs.append({"kind": "manager-" + (w.exit or ("?",))[0], "detail": str((w.exit or ("", ""))[1])[:300]})
+                break
+    finally:
+        w.stop()
+    return {"problems": probs, "reports": reports, "rounds": rounds + w.rounds}
+
+
 def execute(case) -> Dict[str, Any]:
     if case[0] == "late":
         return execute_late(case)
+    if case[0] == "second":
+        return execute_second(case)
     tc, seq = case[:2]  # seq = list of (n, pattern, dt)
     timing = case[2] if len(case) > 2 else True
+    level = case[3] if len(case) > 3 else mmx.SILENT
     mmx.fresh_gc()
-    w = mmx.World(timecode=tc, send_msg_timing=timing)
+    w = mmx.World(timecode=tc, send_msg_timing=timing, log_level=level)
     probs: List[Dict[str, Any]] = []
     reports = {"timing": 0, "traffic": 0}
     want_pids = dict(PIDS)  # module id -> pid of every module connected right now
@@ -370,6 +442,17 @@ def plan(tier: str):
         for combo in itertools.product(small, repeat=2):
             for dts in ((5.1, 1.05), (1.05, 5.1), (5.1, 5.1)):
                 cases.append((tc, [(n, p, dt) for (n, p), dt in zip(combo, dts)]))
+    # the manager's own log records are published as messages: with logging on they are traffic like any other (and some are
+    # written while a report is being put together)
+    noisy = [(0, "odd"), (2, "odd"), (2, "ones"), (65, "ones"), (2, "failed"), (0, "dup-refused"), (0, "sender-leaves")]
+    for level in (20, 30):
+        for combo in itertools.product(noisy, repeat=2):
+            for dts in ((1.05, 1.05), (0.95, 1.05)):
+                cases.append((False, [(n, p, dt) for (n, p), dt in zip(combo, dts)], True, level))
+    # a second manager in a process that has run one before
+    for tc in (False, True):
+        for how in ("mid-interval", "after-report"):
+            cases.append(("second", tc, how))
     # counts up to 65535 / 65536
     cases.append((False, [(2, "max", 1.05), (1, "ones", 1.05)]))
     if tier == "thorough":
@@ -399,7 +482,7 @@ def run(tier: str) -> int:
             nr += r["reports"]["traffic"]
             for p in r["problems"]:
                 chk.violation(f"C18:{p['kind']}", f"intervals {case[1]}: {p}", {"module": "vf.checks.c18", "case": list(case)},
-                              size=(sum(x[0] for x in case[1]) + len(case[1])) if case[0] != "late" else 1)
+                              size=(sum(x[0] for x in case[1]) + len(case[1])) if case[0] not in ("late", "second") else 1)
     chk.sample({"timecode": cases[0][0], "intervals": cases[0][1]})
     chk.sample({"timecode": cases[-1][0], "intervals": cases[-1][1]})
     chk.assumptions += ["virtual TCP model and virtual clock", "observer is a logger (never skipped), so it sees every forwarded frame",
@@ -410,7 +493,7 @@ def run(tier: str) -> int:
 
 def replay(case) -> int:
     c = case["case"]
-    cc = tuple(c) if c[0] == "late" else (c[0], [tuple(x) for x in c[1]]) + tuple(c[2:])
+    cc = tuple(c) if c[0] in ("late", "second") else (c[0], [tuple(x) for x in c[1]]) + tuple(c[2:])
     r1 = execute(cc)
     r2 = execute(cc)
     if str(r1["problems"]) != str(r2["problems"]):
